@@ -440,7 +440,8 @@ def scripted_re_keyed(tape):
             except Exception:   # noqa
                 kd = key
             kb = np.asarray(kd).tobytes()
-            sig = tuple((tuple(getattr(l, "shape", ())), str(getattr(l, "dtype", ""))) for l in jax.tree_util.tree_leaves(primals))
+            leaves, td = jax.tree_util.tree_flatten(primals)
+            sig = (str(td),) + tuple((tuple(getattr(l, "shape", ())), str(getattr(l, "dtype", ""))) for l in leaves)
             if kb in memo:
                 if memo[kb][0] != sig:
                     raise KeyReuse("one PRNG key used for two different draws: %s vs %s" % (memo[kb][0], sig))
